@@ -11,16 +11,41 @@ open TaRs TaRs.Rs
 
 variable {F : Type} [Scalar F]
 
+/-- Normal form of one `next` on a well-formed state (`v` = the slot under the cursor, `v0` =
+    slot 0).  This is the ONLY fact about `next` proved by executing the generated body; it does
+    so with `rs_exec`, which does not depend on how the wrap-around and warm-up tests are spelled.
+    Everything else is derived from it. -/
+theorem next_eq (s : RateOfChange F) (x v v0 : F) (h : WF s)
+    (hv : s.deque[s.index]? = some v) (hv0 : s.deque[0]? = some v0) :
+    s.next x = some (
+      { period := s.period,
+        index := if s.index + 1 < s.period then s.index + 1 else 0,
+        count := if s.period < s.count then s.count else s.count + 1,
+        deque := s.deque.setIfInBounds s.index x },
+      Scalar.mul
+        (Scalar.div (Scalar.sub x (if s.period < s.count then v else if s.count = 0 then x else v0))
+          (if s.period < s.count then v else if s.count = 0 then x else v0))
+        (Scalar.lit 100 0)) := by
+  obtain ⟨hp, hs, hsz, hi, hc⟩ := h
+  have hm : isizeMax < usizeMax := by decide
+  have hix : s.index < s.deque.size := by omega
+  have h0 : 0 < s.deque.size := by omega
+  rw [Array.getElem?_eq_getElem hix] at hv
+  rw [Array.getElem?_eq_getElem h0] at hv0
+  have hv := Option.some.inj hv
+  have hv0 := Option.some.inj hv0
+  unfold next
+  rs_exec
+  all_goals (first | omega | (subst hv; subst hv0; rfl))
+
 /-- `next` never panics on a well-formed state, keeps it well-formed and keeps the period -/
 theorem next_total (s : RateOfChange F) (x : F) (h : WF s) :
     ∃ r, s.next x = some r ∧ WF r.1 ∧ r.1.period = s.period := by
+  have hix : s.index < s.deque.size := by have := h.size; have := h.idx; omega
+  have h0 : 0 < s.deque.size := by have := h.size; have := h.pos; omega
+  refine ⟨_, next_eq s x _ _ h (Array.getElem?_eq_getElem hix) (Array.getElem?_eq_getElem h0), ?_, rfl⟩
   obtain ⟨hp, hs, hsz, hi, hc⟩ := h
-  have hm : isizeMax < usizeMax := by decide
-  unfold next
-  by_cases c0 : s.period < s.count <;> by_cases c1 : s.index + 1 < s.period <;>
-    by_cases c2 : s.count = 0 <;>
-    simp (disch := omega) [index_eq, setIndex_eq, uadd_eq, c0, c1, c2] <;>
-    constructor <;> simp_all <;> omega
+  constructor <;> simp only [Array.size_setIfInBounds] <;> (try split) <;> omega
 
 theorem nextBar_eq (s : RateOfChange F) (b : Bar F) : s.nextBar b = s.next b.close := by
   unfold nextBar
